@@ -491,7 +491,15 @@ func execute(p *Project, o Opts, env Env, plan []simrt.PlannedFault, seed uint64
 	}
 	rootContent := make([]byte, len(rc), len(rc)+env.Slack)
 	copy(rootContent, rc)
-	res := runLibrary(p.Root, rootContent, o)
+	var res Result
+	if treeSpawnsGoroutines() {
+		// the library starts goroutines itself: even a single parse is a schedule
+		simrt.SetSchedPolicy(700, -1, 0, 0)
+		panics := simrt.RunGoroutines([]func(){func() { res = runLibrary(p.Root, rootContent, o) }})
+		notePanics(&res, panics)
+	} else {
+		res = runLibrary(p.Root, rootContent, o)
+	}
 	dec, _ := simrt.Decisions()
 	simrt.SetBudget(^uint64(0), ^uint64(0))
 	eh, en := simrt.EventHash()
@@ -627,5 +635,38 @@ func respellRoot(p *Project, r *rng) {
 	case 4:
 		p.Cwd = filepath.Dir(dir)
 		p.Root = filepath.Base(dir) + "/" + base
+	}
+}
+
+var spawnsGo = -1
+
+// treeSpawnsGoroutines: does the rewritten tree contain go statements (site table, seam "go")?
+func treeSpawnsGoroutines() bool {
+	if spawnsGo < 0 {
+		spawnsGo = 0
+		var t struct {
+			Seams map[string]int `json:"seams"`
+		}
+		if b, err := os.ReadFile(sitesPath); err == nil && json.Unmarshal(b, &t) == nil && t.Seams["go"] > 0 {
+			spawnsGo = 1
+		}
+	}
+	return spawnsGo == 1
+}
+
+// notePanics records panics of simulated goroutines (also of those the library started itself:
+// in a real process an unrecovered panic in any goroutine is fatal).
+func notePanics(res *Result, panics []interface{}) {
+	all := append([]interface{}{}, panics...)
+	all = append(all, simrt.ExtraPanics()...)
+	for _, pv := range all {
+		if pv != nil && res.Panic == "" {
+			res.Panic = fmt.Sprint(pv)
+			res.PanicKind = "other"
+			if _, ok := pv.(simrt.BudgetExceeded); ok {
+				res.PanicKind = "budget"
+			}
+			res.PanicSig = "goroutine:" + normPanicMsg(fmt.Sprint(pv))
+		}
 	}
 }
